@@ -79,6 +79,7 @@ type session struct {
 	pd, pa           *network.Peer // the dialer's and the acceptor's peer object of this connection
 	secret           []byte
 	secureReq        *network.VerifPacket // the SecureRequest that opened the session, as recorded on the wire
+	sigReq           *network.SignatureRequest // the dialer's genuine SignatureRequest, as recorded on the wire
 	replayOf         int                  // > 0: connection opened by the attacker with the SecureRequest of that session
 }
 
@@ -136,6 +137,7 @@ func (w *world) start(s int) *verdict {
 	if _, err := codec.MP.UnmarshalFromBytes(f.Payload, &rq); err != nil || f.SubProtocol != network.VerifAuthSignatureRequest {
 		return &verdict{"handshake:driver", fmt.Sprintf("session %d: unexpected message %#x: %v", s, f.SubProtocol, err), false}
 	}
+	se.sigReq = &rq
 	sd, sa := network.VerifPeerSessionSecret(se.pd), network.VerifPeerSessionSecret(se.pa)
 	if len(sd) == 0 || !bytes.Equal(sd, sa) {
 		return &verdict{"handshake:secret-mismatch", fmt.Sprintf("session %d: the two ends derived different session secrets", s), false}
@@ -377,6 +379,14 @@ func (w *world) deliver(i int, st step) *verdict {
 	if !st.Err {
 		pk, sig = w.pubKey(st.Pkw, st.Pkf), w.signature(st.Sw, st.Sc, st.Sf)
 	}
+	if st.Op == "reflect" {
+		// the accepting end did the anonymous key exchange and echoes the dialer's own SignatureRequest fields
+		// (byte for byte what travelled; only the key encoding may be re-encoded as the behaviour says)
+		sig = se.sigReq.Signature
+		if st.Pkf == "comp" {
+			pk = se.sigReq.PublicKey
+		}
+	}
 	if toAcc {
 		payload = codec.MP.MustMarshalToBytes(&network.SignatureRequest{PublicKey: pk, Signature: sig})
 	} else if st.Err {
@@ -412,9 +422,13 @@ func (w *world) deliver(i int, st step) *verdict {
 	network.VerifAuthOnPacket(target.a, pkt, peer)
 	gotID, accepted := target.accepted[peer]
 	if accepted {
-		if st.Res == "error:self" {
+		if st.Res == "error:self" && toAcc {
 			// a valid proof by the node's own key: refusing it is protocol behaviour, not part of the property
 			return &verdict{"handshake:self-accepted", desc + ": the acceptor handed on a peer with its own identity", false}
+		}
+		if st.Res == "error:self" && !toAcc {
+			return &verdict{"authenticator:identity-without-key:reflection",
+				desc + fmt.Sprintf(": the dialer handed the connection on with ITS OWN identity %v -- the other end only echoed the dialer's public key and signature and never proved possession of any key (handleSignatureResponse has no self-identity test); required: refused (selfAddress), closed", gotID), true}
 		}
 		if st.Res != "accept" {
 			return &verdict{"authenticator:accepted:" + side + ":" + st.Res[6:],
@@ -489,7 +503,7 @@ func runBehaviour(steps []step, rnd *rand.Rand) *verdict {
 			v = w.start(st.S)
 		case "replaytx":
 			v = w.replayTranscript(st.S, st.Sc)
-		case "toacc", "todial":
+		case "toacc", "todial", "reflect":
 			v = w.deliver(i, st)
 		case "churn":
 			v = w.otherIDs(150)
